@@ -16,6 +16,8 @@
 (*  Reserved : the intended deviation of pyscript - unexpected keywords with these names are *)
 (*          dropped when the callee has no **kwargs and does not declare them (parameters   *)
 (*          may themselves be named like reserved keywords).  Reserved = {} is Python.      *)
+(*  val   : a valuation - which VALUE is written at which source (default expression of a     *)
+(*          parameter, i-th positional value, value of a keyword); see Values below.         *)
 (*  flags : named deviations of the pinned code (known findings); {} is the statement.       *)
 (*     "posonly-kw"  a keyword naming a positional-only parameter raises TypeError even      *)
 (*                   though **kwargs should absorb it                                       *)
@@ -71,11 +73,30 @@ Source(sig, r, p) == IF p \in r.pos THEN PosTag[PosIndex(sig, p)]
                      ELSE IF p \in r.kwd THEN "k:" \o p ELSE "d:" \o p
 Sources(sig, r) == [i \in 1..Len(AllParams(sig)) |-> Source(sig, r, AllParams(sig)[i])]
 
+(* ---- values.  Bind decides WHERE every parameter's value comes from; which value that is depends on the   *)
+(* valuation of the program text: val = Seq(<<source tag, value tag>>) gives the value written at a source    *)
+(* ("d:<param>" the default expression of a parameter, "p<i>" the i-th positional value of the call,          *)
+(* "k:<name>" the value of keyword <name>); a source not listed carries its own tag as value (a distinct      *)
+(* truthy constant).  Value tags are opaque here ("NoneType:None", "int:0", "list:[]", ..): Python's binding  *)
+(* never looks at a value - a falsy default is a default, a None argument is an argument.                    *)
+ValOf(val, s) == IF \E i \in 1..Len(val) : val[i][1] = s
+                 THEN val[CHOOSE i \in 1..Len(val) : val[i][1] = s][2] ELSE s
+Values(sig, r, val) == [i \in 1..Len(AllParams(sig)) |-> ValOf(val, Source(sig, r, AllParams(sig)[i]))]
+VaValues(r, val)    == [j \in 1..Len(r.va) |-> ValOf(val, PosTag[r.va[j]])]
+
 (* ---- theorems of the transcription (checked by TLC over the whole family, PyBindMC) ---- *)
 EveryParameterBoundExactlyOnce(sig, r) ==
   r.k = "ok" => /\ r.pos \cup r.kwd \cup r.dflt = Range(AllParams(sig))
                 /\ r.pos \cap r.kwd = {} /\ r.pos \cap r.dflt = {} /\ r.kwd \cap r.dflt = {}
                 /\ \A p \in r.dflt : HasDefault(sig, p)
+\* every parameter carries the value written at exactly one place: its default expression iff neither a
+\* positional argument nor a keyword fills it, whatever that value is (in particular whatever its truth value)
+ValuesFollowSources(sig, r, val) ==
+  r.k = "ok" => \A i \in 1..Len(AllParams(sig)) :
+     LET p == AllParams(sig)[i]  v == Values(sig, r, val)[i] IN
+     /\ p \in r.dflt => (HasDefault(sig, p) /\ v = ValOf(val, "d:" \o p))
+     /\ p \in r.kwd  => v = ValOf(val, "k:" \o p)
+     /\ p \in r.pos  => v = ValOf(val, PosTag[PosIndex(sig, p)])
 NoExtraNames(sig, call, Reserved, r) ==
   r.k = "ok" => /\ r.kwmap \subseteq Range(call.kws) \ Named(sig)
                 /\ (~sig.kw => r.kwmap = {})
